@@ -33,6 +33,8 @@ FIELD_SETS = [
     ['density', 'temp', 'rhoh', 'divu', 'Y(AR)', 'Y(O)', 'I_R(O)'],
     # names the database does not know, one a prefix of the other, one with regex metacharacters
     ['Z', 'temp', 'Zvar', 'c(x)'],
+    # ... one the ending of another, one in the middle of another
+    ['E', 'rho_E', 'density', 'kE2', 'Y(H2)'],
 ]
 
 
